@@ -511,4 +511,52 @@ theorem fromUc_renames (lines : List (List String)) (fasta : List String) (t t' 
           · have := dedup_length_lt ids hn
             exact absurd (by omega) hd
 
+/-! ### non-vacuity: concrete inputs meet the hypotheses, and the conclusions are not trivial -/
+
+def demoGrid : Grid := [[1, 0, 2], [0, 3, 0]]
+/-- triples with a repeated coordinate (1 + 2 = 3 at (1,1)) and an explicit zero, in no order -/
+def demoTriples : Data := .listList [[0, 0, 1], [1, 1, 1], [0, 2, 2], [1, 1, 2], [0, 1, 0]]
+def demoDict : Data := .dict [((0, 0), 1), ((0, 2), 2), ((1, 1), 3), ((1, 0), 0)]
+def demoRowDicts : Data := .listDict [[((0, 0), 1), ((0, 2), 2)], [((0, 1), 3)]]
+def demoColDicts : Data := .listDict [[((0, 0), 1)], [((1, 0), 3)], [((0, 0), 2)]]
+def demoSparseRows : Data := .listSparse [⟨1, 3, [[1, 0, 2]]⟩, ⟨1, 3, [[0, 3, 0]]⟩]
+def demoInput (d : Data) (dense : Bool := false) : Input :=
+  { data := d, obs := ["O1", "O2"], samp := ["S1", "S2", "S3"],
+    omd := some [.map [("k", "1")], .null], inputIsDense := dense }
+
+example : encodes demoTriples false demoGrid 2 3 = true := by decide +kernel
+example : encodes demoDict false demoGrid 2 3 = true := by decide +kernel
+example : encodes demoRowDicts false demoGrid 2 3 = true := by decide +kernel
+example : encodes demoColDicts false demoGrid 2 3 = true := by decide +kernel
+example : encodes demoSparseRows false demoGrid 2 3 = true := by decide +kernel
+example : encodes (.listList demoGrid) true demoGrid 2 3 = true := by decide +kernel
+example : encodes (.arr 2 3 demoGrid) false demoGrid 2 3 = true := by decide +kernel
+example : mdBad (demoInput demoDict).omd (demoInput demoDict).obs = false := by decide
+/-- the produced table really carries the grid and the metadata -/
+example : sameResult (construct (demoInput demoTriples)) (.ok (built (demoInput demoTriples) demoGrid)) = true := by
+  decide +kernel
+example : (built (demoInput demoTriples) demoGrid).cell? "O2" "S2" = some 3 := by decide +kernel
+example : (built (demoInput demoTriples) demoGrid).mdOf? .obs "O1" = some [("k", "1")] := by decide +kernel
+/-- duplicate ID, too few IDs, metadata too short, a non-mapping entry: all refused -/
+example : isErr (construct { demoInput demoColDicts with obs := ["O1", "O1"] }) .tableException = true := by
+  decide +kernel
+example : isErr (construct { demoInput demoSparseRows with samp := ["S1", "S2"], omd := none }) .tableException = true := by
+  decide +kernel
+example : isErr (construct { demoInput demoDict with omd := some [.null] }) .tableException = true := by
+  decide +kernel
+example : isErr (construct { demoInput demoDict with smd := some [.null, .other, .null] }) .tableException = true := by
+  decide +kernel
+/-- the inputs on which the unrepaired constructor produced a table -/
+example : isErr (construct { data := .listList [[1, 2], [0, 0]], obs := ["a"], samp := ["x", "y"], inputIsDense := true })
+    .tableException = true := by decide +kernel
+/-- an adjacency document with a repeated pair and a uc label with two underscores -/
+example : (fromAdjacency [⟨["#OTU ID", "SampleID", "value"], none⟩, ⟨["a", "b", "1"], some 1⟩,
+    ⟨["a", "c", "2"], some 2⟩, ⟨["d", "c", "3"], some 3⟩, ⟨["a", "b", "4"], some 4⟩]).toOption.bind
+      (·.cell? "a" "b") = some 5 := by decide +kernel
+example : sampleOf "f3_a_43" = some "f3_a" := by decide +kernel
+example : (parseUc [["S", "0", "1", "*", "*", "*", "*", "*", "f2_1539", "*"],
+    ["H", "0", "1", "9", "+", "0", "0", "1M", "f3_a_43 extra", "f2_1539"],
+    ["H", "0", "1", "9", "+", "0", "0", "1M", "f3_a_44", "f2_1539"]]).toOption.bind
+      (·.cell? "f2_1539" "f3_a") = some 2 := by decide +kernel
+
 end Biom.C17
